@@ -1428,6 +1428,21 @@ package eval
 //@     invariant [input-untouched] (and (= (mapdom $vals) (old (mapdom $vals))) (= (mapvals $vals) (old (mapvals $vals))))
 //@     decreases (- (iter.n 1) (iter.pos 1))
 
+//@ func ToValueMap C11
+//@   ensures [fresh] (and (not (= $ret0 0)) (fresh $ret0))
+//@   ensures [same-names] (forall ((k Int)) (! (= (mapin $ret0 k) (old (mapin $m k))) :pattern ((mapin $ret0 k))))
+//@   ensures [normalised-values] (forall ((k Int)) (! (=> (and (old (mapin $m k)) (not (ISLISTIN (old (mapval $m k))))) (= (mapval $ret0 k) (unifyScalar (old (mapval $m k))))) :pattern ((mapval $ret0 k))))
+//@   loop 1
+//@     invariant [built-prefix] (and (not (= $res 0)) (fresh $res)
+//@        (forall ((k Int)) (! (= (mapin $res k) (and (old (mapin $m k)) (< (iter.idx 1 k) (iter.pos 1)))) :pattern ((mapin $res k))))
+//@        (forall ((k Int)) (! (=> (and (old (mapin $m k)) (< (iter.idx 1 k) (iter.pos 1)) (not (ISLISTIN (old (mapval $m k))))) (= (mapval $res k) (unifyScalar (old (mapval $m k))))) :pattern ((mapval $res k)))))
+//@     invariant [input-untouched] (and (= (mapdom $m) (old (mapdom $m))) (= (mapvals $m) (old (mapvals $m))))
+//@     decreases (- (iter.n 1) (iter.pos 1))
+
+// the exported normaliser: values that already have a supported type are returned as they are, everything else goes
+// through unifyType; on scalars the result is the normalised scalar either way
+//@ func UnifyType C11
+//@   ensures [scalars-normalised] (=> (not (ISLISTIN $val)) (= $ret0 (unifyScalar $val)))
 //@ macro (KEYSOK $m) (forall ((k Int)) (! (=> (mapin $m k) (and (<= 0 (mapval $m k)) (< (mapval $m k) 32767))) :pattern ((mapval $m k))))
 //@ func NewSliceVarFetcher C11
 //@   requires [config] (and (not (= $cc 0)) (OWNED (KEYMAP $cc)) (KEYSOK (KEYMAP $cc)) (exists ((k Int)) (mapin (KEYMAP $cc) k)))
